@@ -288,7 +288,11 @@ def monStep' (m : MSt) (bl : Block) : MSt × List String :=
         then ["prop=C10 reason=temporary-files-left-behind-differ-after-the-connection-ended"] else []
       -- C12: the frame loop must survive everything (a panic inside handleConn ends the connection abnormally)
       let c12 := if got.any (fun l => l == ["conn", "panic"]) then ["prop=C12 reason=frame-processing-panicked"] else []
-      (m', c :: thr ++ c04 ++ c17 ++ c15 ++ c10 ++ c12)
+      -- C17: a test recording is one file of testLast+1 frames (plus the background frame the file starts with)
+      let testN := s!"nframes={Facts.testRecLast + 2}"
+      let cnt (ls : List (List String)) := (ls.filter fun l => l.take 2 == ["file", "main"] && l.contains testN).length
+      let c17t := if cnt exp != cnt got then ["prop=C17 reason=test-recording-file-of-21-frames-missing-or-of-another-length"] else []
+      (m', c :: thr ++ c04 ++ c17 ++ c15 ++ c10 ++ c12 ++ c17t)
   | ["n"] =>
     let exp := ((runConn m.st.f m.st.bytes m.st.reqOffsets m.st.wins).lines).map fields
     if exp == bl.outs then ({ m with st := st' }, [])
